@@ -14,14 +14,14 @@ def check(repo, rep, tier):
                        'its own members, and the write effects of the query path are confined to the binding cells and atom '
                        'interning. Thread-level atomicity inside CPython and ANTLR\'s prediction caches are trusted.')
     rep.assume('the generated parser/lexer keep ANTLR prediction caches at class level: semantically transparent memoisation, excluded')
-    rs.rule_no_module_state(em, rep, 'C04.I1')
-    rs.rule_no_shared_class_attrs(em, rep, 'C04.I2')
-    rs.rule_fresh_per_instance(em, rep, 'C04.I3')
-    rs.rule_defaults(em, rep, 'C04.I4')
-    rs.rule_script_globals(em, rep, 'C04.I6')
-    rq.rule_atomic_load(em, rep, 'C04.I6b')
-    rs.rule_queries_read_only(em, rep, 'C04.I7')
-    rs.rule_context_not_written(em, rep, 'C04.I2b')
-    rx.rule_no_definition_time_state(em, rep, 'C04.I8')
+    rep.run(rs.rule_no_module_state, em, rep, 'C04.I1')
+    rep.run(rs.rule_no_shared_class_attrs, em, rep, 'C04.I2')
+    rep.run(rs.rule_fresh_per_instance, em, rep, 'C04.I3')
+    rep.run(rs.rule_defaults, em, rep, 'C04.I4')
+    rep.run(rs.rule_script_globals, em, rep, 'C04.I6')
+    rep.run(rq.rule_atomic_load, em, rep, 'C04.I6b')
+    rep.run(rs.rule_queries_read_only, em, rep, 'C04.I7')
+    rep.run(rs.rule_context_not_written, em, rep, 'C04.I2b')
+    rep.run(rx.rule_no_definition_time_state, em, rep, 'C04.I8')
     fr = rs.Freshness(em)
-    rs.rule_fresh_per_use(em, rep, 'C04.I10', fr)
+    rep.run(rs.rule_fresh_per_use, em, rep, 'C04.I10', fr)
